@@ -320,7 +320,7 @@ func throttleMonitor(k *ThrottleCase) []c.Hit {
 		switch {
 		case src == nil:
 			add("phantom-hit:throttle", want, "the replayed response was never handed to OnResponse")
-		case src.Method != o.Method || src.URL != o.URL:
+		case src.Method != o.Method || !sameURL(src.URL, o.URL):
 			add("wrong-key-hit:throttle", want, fmt.Sprintf("replayed the response given for %s %s", src.Method, src.URL))
 		case src.HdrKind != "ok" || (k.Conf.Type != "relative_seconds" && k.Conf.Type != "absolute_epoch"):
 			add("no-retry-after-replayed:throttle", fmt.Sprintf("op %d: replay only until the provider's retry-after time", i),
@@ -388,6 +388,7 @@ func throttleRecord(o *c.Out, k *ThrottleCase) {
 		}
 	}
 	o.Count("throttle.type=" + k.Conf.Type)
+	throttleLetterCaseCounts(o, k)
 	o.Count(fmt.Sprintf("throttle.len=%02d", len(k.Ops)))
 	o.CountN("throttle.hits", hit)
 	o.CountN("throttle.misses", miss)
@@ -432,6 +433,10 @@ func replayThrottle(o *c.Out, k *ThrottleCase) {
 // ---------------------------------------------------------------- generator
 
 func genThrottleHistory(o *c.Out, rng *c.Rng, t0 int64) {
+	genThrottleHistoryURLs(o, rng, t0, []string{"a.com/x", "a.com/y"})
+}
+
+func genThrottleHistoryURLs(o *c.Out, rng *c.Rng, t0 int64, urls []string) {
 	cf := ThrottleConf{Type: c.Pick(rng, []string{"relative_seconds", "relative_seconds", "absolute_epoch", "absolute_epoch", "undefined"}),
 		Statuses: c.Pick(rng, [][]int{{429}, {429, 503}})}
 	if cf.Type == "undefined" && rng.Chance(2, 3) {
@@ -441,7 +446,6 @@ func genThrottleHistory(o *c.Out, rng *c.Rng, t0 int64) {
 	// the first response is received at a non-zero sub-second part of the clock
 	r := newThrottleRun(cf, t0+int64(rng.Range(0, 511))*G)
 	methods := []string{"GET", "POST"}
-	urls := []string{"a.com/x", "a.com/y"}
 	n := rng.Range(6, 18)
 	vid := 100
 	var deadlines []int64
